@@ -113,21 +113,21 @@ namespace pika::split_tuple_detail {
         {
             PIKA_STDEXEC_RECEIVER_CONCEPT
 
-            shared_state& state;
+            pika::intrusive_ptr<shared_state> state;
 
             template <typename Error>
             void set_error(Error&& error) && noexcept
             {
                 auto r = std::move(*this);
-                r.state.v.template emplace<error_type>(error_type(std::forward<Error>(error)));
-                r.state.set_predecessor_done();
+                r.state->v.template emplace<error_type>(error_type(std::forward<Error>(error)));
+                r.state->set_predecessor_done();
             }
 
             void set_stopped() && noexcept
             {
                 auto r = std::move(*this);
-                r.state.v.template emplace<pika::execution::detail::stopped_type>();
-                r.state.set_predecessor_done();
+                r.state->v.template emplace<pika::execution::detail::stopped_type>();
+                r.state->set_predecessor_done();
             };
 
             // This typedef is duplicated from the parent struct. The
@@ -155,9 +155,9 @@ namespace pika::split_tuple_detail {
                     void())
             {
                 auto r = std::move(*this);
-                r.state.v.template emplace<value_type>(std::forward<T>(t));
+                r.state->v.template emplace<value_type>(std::forward<T>(t));
 
-                r.state.set_predecessor_done();
+                r.state->set_predecessor_done();
             }
 
             constexpr pika::execution::experimental::empty_env get_env() const& noexcept
@@ -173,7 +173,7 @@ namespace pika::split_tuple_detail {
         {
             os.emplace(pika::detail::with_result_of([&]() {
                 return pika::execution::experimental::connect(
-                    std::forward<Sender_>(sender), split_tuple_receiver{*this});
+                    std::forward<Sender_>(sender), split_tuple_receiver{this});
             }));
         }
 
